@@ -176,6 +176,10 @@ def key {α : Type} (H : List Token → α) (tbl : Tbl) (t : Term) : α := H (en
 /-- the function view of a generated table `[(kind, fields)]` -/
 def tblOf (t : List (String × List String)) : Tbl := fun k => (t.lookup k).getD []
 
+/-- the row view `[(kind, field)]` of a generated table -/
+def rowsOf (t : List (String × List String)) : List (String × String) :=
+  t.flatMap fun kf => kf.2.map fun f => (kf.1, f)
+
 /-- two tables select the same fields (order and repetitions do not matter) -/
 def TblEquivOn (p : String → Bool) (t s : Tbl) : Prop :=
   ∀ k, p k = true → ∀ f, (t k).contains f = (s k).contains f
